@@ -139,21 +139,27 @@ func (b *BinaryExpression) SQL() string {
 	if b == nil {
 		return ""
 	}
-	left := exprSQL(b.Left)
-	right := exprSQL(b.Right)
 	op := b.Operator
 	if b.CustomOp != nil {
 		op = b.CustomOp.String()
 	}
 
 	upperOp := strings.ToUpper(op)
+	prec := binaryOpPrecedence(upperOp)
 
-	// Handle IS NULL / IS NOT NULL (right side is NULL literal)
+	// Operands that bind looser than this operator keep their parentheses.
+	// Binary operators associate to the left; comparisons do not associate.
+	leftMin, rightMin := prec, prec+1
+	if prec == precComparison {
+		leftMin = prec + 1
+	}
+	left := operandSQL(b.Left, leftMin)
+	right := operandSQL(b.Right, rightMin)
+
 	if upperOp == "IS NULL" || upperOp == "IS NOT NULL" {
 		return fmt.Sprintf("%s %s", left, upperOp)
 	}
 
-	// Handle special operators like LIKE, ILIKE, SIMILAR TO
 	if b.Not {
 		switch upperOp {
 		case "LIKE", "ILIKE", "SIMILAR TO":
@@ -166,22 +172,99 @@ func (b *BinaryExpression) SQL() string {
 	return fmt.Sprintf("%s %s %s", left, op, right)
 }
 
+// Expression precedence levels used when serialising, mirroring the parser's
+// ladder: OR < AND < NOT < comparison/predicates < || < + - < * / % < JSON
+// operators < unary sign < primary.
+const (
+	precOr = iota + 1
+	precAnd
+	precNot
+	precComparison
+	precConcat
+	precAdditive
+	precMultiplicative
+	precJSON
+	precUnarySign
+	precPrimary
+)
+
+func binaryOpPrecedence(upperOp string) int {
+	switch upperOp {
+	case "OR":
+		return precOr
+	case "AND":
+		return precAnd
+	case "||":
+		return precConcat
+	case "+", "-":
+		return precAdditive
+	case "*", "/", "%":
+		return precMultiplicative
+	case "->", "->>", "#>", "#>>", "@>", "<@", "#-", "?", "?|", "?&":
+		return precJSON
+	default:
+		// =, <>, <, LIKE, IS NULL, REGEXP, custom operators ...
+		return precComparison
+	}
+}
+
+// exprPrecedence returns the level of the outermost operator of e as it is
+// written by SQL().
+func exprPrecedence(e Expression) int {
+	switch v := e.(type) {
+	case *BinaryExpression:
+		if v == nil {
+			return precPrimary
+		}
+		if v.Not {
+			upper := strings.ToUpper(v.Operator)
+			if upper != "LIKE" && upper != "ILIKE" && upper != "SIMILAR TO" && upper != "IS NULL" {
+				return precNot // written as NOT (...)
+			}
+		}
+		op := v.Operator
+		if v.CustomOp != nil {
+			op = v.CustomOp.String()
+		}
+		return binaryOpPrecedence(strings.ToUpper(op))
+	case *UnaryExpression:
+		if v != nil && v.Operator == Not {
+			return precNot
+		}
+		return precUnarySign
+	case *BetweenExpression, *InExpression, *AnyExpression, *AllExpression:
+		return precComparison
+	case *AliasedExpression:
+		return 0
+	default:
+		return precPrimary
+	}
+}
+
+// operandSQL serialises e as an operand that must bind at least as tightly as min.
+func operandSQL(e Expression, min int) string {
+	s := exprSQL(e)
+	if e != nil && exprPrecedence(e) < min {
+		return "(" + s + ")"
+	}
+	return s
+}
+
 func (u *UnaryExpression) SQL() string {
 	if u == nil {
 		return ""
 	}
-	inner := exprSQL(u.Expr)
 	switch u.Operator {
 	case Not:
-		return "NOT " + inner
+		return "NOT " + operandSQL(u.Expr, precNot)
 	case PGPostfixFactorial:
-		return inner + "!"
+		return operandSQL(u.Expr, precPrimary) + "!"
 	case Plus:
-		return "+" + inner
+		return "+" + operandSQL(u.Expr, precJSON)
 	case Minus:
-		return "-" + inner
+		return "-" + operandSQL(u.Expr, precJSON)
 	default:
-		return u.Operator.String() + inner
+		return u.Operator.String() + operandSQL(u.Expr, precPrimary)
 	}
 }
 
@@ -239,7 +322,7 @@ func (b *BetweenExpression) SQL() string {
 	if b.Not {
 		not = "NOT "
 	}
-	return fmt.Sprintf("%s %sBETWEEN %s AND %s", exprSQL(b.Expr), not, exprSQL(b.Lower), exprSQL(b.Upper))
+	return fmt.Sprintf("%s %sBETWEEN %s AND %s", operandSQL(b.Expr, precConcat), not, operandSQL(b.Lower, precConcat), operandSQL(b.Upper, precConcat))
 }
 
 func (i *InExpression) SQL() string {
@@ -251,13 +334,13 @@ func (i *InExpression) SQL() string {
 		not = "NOT "
 	}
 	if i.Subquery != nil {
-		return fmt.Sprintf("%s %sIN (%s)", exprSQL(i.Expr), not, stmtSQL(i.Subquery))
+		return fmt.Sprintf("%s %sIN (%s)", operandSQL(i.Expr, precConcat), not, stmtSQL(i.Subquery))
 	}
 	vals := make([]string, len(i.List))
 	for idx, v := range i.List {
 		vals[idx] = exprSQL(v)
 	}
-	return fmt.Sprintf("%s %sIN (%s)", exprSQL(i.Expr), not, strings.Join(vals, ", "))
+	return fmt.Sprintf("%s %sIN (%s)", operandSQL(i.Expr, precConcat), not, strings.Join(vals, ", "))
 }
 
 func (e *ExistsExpression) SQL() string {
@@ -278,14 +361,14 @@ func (a *AnyExpression) SQL() string {
 	if a == nil {
 		return ""
 	}
-	return fmt.Sprintf("%s %s ANY (%s)", exprSQL(a.Expr), a.Operator, stmtSQL(a.Subquery))
+	return fmt.Sprintf("%s %s ANY (%s)", operandSQL(a.Expr, precConcat), a.Operator, stmtSQL(a.Subquery))
 }
 
 func (a *AllExpression) SQL() string {
 	if a == nil {
 		return ""
 	}
-	return fmt.Sprintf("%s %s ALL (%s)", exprSQL(a.Expr), a.Operator, stmtSQL(a.Subquery))
+	return fmt.Sprintf("%s %s ALL (%s)", operandSQL(a.Expr, precConcat), a.Operator, stmtSQL(a.Subquery))
 }
 
 func (f *FunctionCall) SQL() string {
@@ -398,7 +481,7 @@ func (a *ArraySubscriptExpression) SQL() string {
 	if a == nil {
 		return ""
 	}
-	s := exprSQL(a.Array)
+	s := operandSQL(a.Array, precPrimary)
 	for _, idx := range a.Indices {
 		s += "[" + exprSQL(idx) + "]"
 	}
@@ -417,7 +500,7 @@ func (a *ArraySliceExpression) SQL() string {
 	if a.End != nil {
 		end = exprSQL(a.End)
 	}
-	return fmt.Sprintf("%s[%s:%s]", exprSQL(a.Array), start, end)
+	return fmt.Sprintf("%s[%s:%s]", operandSQL(a.Array, precPrimary), start, end)
 }
 
 // GROUP BY advanced expressions
